@@ -255,6 +255,7 @@ class Interp:
         self.summaries = summaries if summaries is not None else {}     # name or 'dep:x' -> callable(interp, state, args, inst) -> value
         self.budget = budget; self.steps = 0; self.max_steps = max_steps
         self.accesses = []       # (function, loc, obj, offset, size, kind) concrete accesses bounds-checked
+        self.aborts = []         # partitions that ended in a noreturn call (failed assertion in assertion-enabled builds)
         self.nofork = 0          # mask of input bits that must not be partitioned on (e.g. an unknown string length)
         self.nforks = 0
         self.globals_loaded = set()
@@ -270,6 +271,10 @@ class Interp:
             if name not in self._gimg:
                 cells = []
                 self._flatten(g['init'], cells)
+                if g['ty'] == '%struct.polyseed_dependency':
+                    # harness precondition (documented): polyseed_inject has been called - every table entry is a non-NULL function
+                    for off, (fld, sz) in self.P.dep_fields.items():
+                        for k in range(8): cells[off + k] = ('ptr', Ptr('f:injected_' + fld, 0), k)
                 self._gimg[name] = cells
             st.mem.objs[key] = self._gimg[name]          # shared image: copy-on-write protects it
         return key
@@ -618,6 +623,9 @@ class Interp:
                 kind = r[0]
                 if kind == 'ret':
                     return [Outcome(st, r[1])]
+                if kind == 'abort':
+                    self.aborts.append((i.loc, list(st.cons.opaque)[-2:]))
+                    return []
                 if kind == 'jump':
                     prev, bb, idx = bb, r[1], 0; jumped = True; break
                 if kind == 'fork-br':
@@ -938,4 +946,8 @@ class Interp:
             if not outs:
                 raise Unmodelled('call to %s has no feasible outcome at %s' % (name, i.loc))
             return ('multi', outs)
+        if i.d.get('noreturn') or name in ('__assert_fail', 'abort'):
+            # assertion failure / abort: this partition does not return
+            st.events.append(('abort', name, i.loc))
+            return ('abort',)
         raise Unmodelled('call to unmodelled external %s at %s' % (name, i.loc))
